@@ -54,6 +54,11 @@ def shard_main(pid, specfile, outfile):
         import calendar
         calendar.setfirstweekday(calendar.SUNDAY)      # another process-wide setting of the host program that no property depends on
         acc.sets.setdefault('shards_with_calendar_first_weekday', set()).add('SUNDAY')
+    if int(spec.get('shard', 0)) % 5 == 2:
+        # the host program works with a short decimal context (the library's figures are floats: no property depends on it)
+        import decimal
+        decimal.getcontext().prec = 6
+        acc.sets.setdefault('shards_with_decimal_context', set()).add('prec=6')
     try:
         mod.run_shard(spec, acc)
     except Exception:
